@@ -1,5 +1,6 @@
 import JL.Eval
 import JL.RsAttr
+import JL.Spec.Utf8
 /-!
 # Meaning of the Rust standard-library and serde_json calls that occur in translated code
 
@@ -54,6 +55,26 @@ theorem gt_f64 (a b : F64) : gt a b = F64.gt a b := by
   cases a <;> cases b <;> simp [gt, ROrd.lt, F64.gt, F64.lt]
 theorem ge_f64 (a b : F64) : ge a b = F64.ge a b := by
   cases a <;> cases b <;> simp [ge, ROrd.le, F64.ge, F64.le]
+
+/-! ## `Ordering` -/
+class RCmp (α : Type) where partialCmp : α → α → Option Ordering
+instance : RCmp F64 := ⟨fun a b => if F64.lt a b then some .lt else if F64.eq a b then some .eq else if F64.lt b a then some .gt else none⟩   -- `None` iff a NaN is involved
+instance : RCmp Str := ⟨fun a b => some (if strLt a b then .lt else if a == b then .eq else .gt)⟩
+instance : RCmp Nat := ⟨fun a b => some (Ord.compare a b)⟩
+instance : RCmp Int := ⟨fun a b => some (Ord.compare a b)⟩
+@[rs] def partial_cmp {α : Type} [RCmp α] (a b : α) : Option Ordering := RCmp.partialCmp a b
+class RTotalCmp (α : Type) where cmp : α → α → Ordering
+instance : RTotalCmp Str := ⟨fun a b => if strLt a b then .lt else if a == b then .eq else .gt⟩
+instance : RTotalCmp Nat := ⟨fun a b => Ord.compare a b⟩
+instance : RTotalCmp Int := ⟨fun a b => Ord.compare a b⟩
+@[rs] def cmp_ {α : Type} [RTotalCmp α] (a b : α) : Ordering := RTotalCmp.cmp a b
+@[rs] def is_lt (o : Ordering) : Bool := o == .lt
+@[rs] def is_le (o : Ordering) : Bool := o != .gt
+@[rs] def is_gt (o : Ordering) : Bool := o == .gt
+@[rs] def is_ge (o : Ordering) : Bool := o != .lt
+@[rs] def is_eq (o : Ordering) : Bool := o == .eq
+@[rs] def is_ne (o : Ordering) : Bool := o != .eq
+instance : REq Ordering := ⟨fun a b => a == b⟩
 
 /-! ## arithmetic -/
 class RArith (α : Type) where
@@ -187,10 +208,20 @@ instance : RPat Char := ⟨fun s c => match s with | x :: rest => if x == c then
 instance : RPat Str := ⟨fun s p => if isPrefix p s then some (s.drop p.length) else none⟩
 @[rs] def strip_prefix {π : Type} [RPat π] (s : Str) (p : π) : Option Str := RPat.stripPrefix s p
 @[rs] def starts_with (s p : Str) : Bool := isPrefix p s
-@[rs] def contains (s p : Str) : Bool := isInfix p s
+class RContains (c : Type) (e : outParam Type) where contains : c → e → Bool
+instance (priority := high) : RContains Str Str := ⟨fun s p => isInfix p s⟩                 -- `str::contains(&str)`
+instance (priority := low) : RContains (List Json) Json := ⟨fun l x => Json.contains l x⟩   -- `Vec<Value>::contains` (`Value: PartialEq`)
+@[rs] def contains {c e : Type} [RContains c e] (a : c) (x : e) : Bool := RContains.contains a x
 @[rs] def trim_start_matches (s : Str) (p : Char → Bool) : Str := s.dropWhile p
 @[rs] def trim_end_matches (s : Str) (p : Char → Bool) : Str := (s.reverse.dropWhile p).reverse
 @[rs] def trim_matches (s : Str) (p : Char → Bool) : Str := trim_end_matches (trim_start_matches s p) p
+/-- `char::is_whitespace` (Unicode White_Space), for `str::trim*` -/
+def isUnicodeWhitespace (c : Char) : Bool :=
+  let n := c.toNat
+  (9 ≤ n && n ≤ 13) || n == 0x20 || n == 0x85 || n == 0xA0 || n == 0x1680 || (0x2000 ≤ n && n ≤ 0x200A) || n == 0x2028 || n == 0x2029 || n == 0x202F || n == 0x205F || n == 0x3000
+@[rs] def trim (s : Str) : Str := trim_matches s isUnicodeWhitespace
+@[rs] def trim_start (s : Str) : Str := trim_start_matches s isUnicodeWhitespace
+@[rs] def trim_end (s : Str) : Str := trim_end_matches s isUnicodeWhitespace
 
 class RToString (α : Type) where toStr : α → Str
 instance : RToString Bool := ⟨fun b => if b then "true".toList else "false".toList⟩
@@ -232,7 +263,13 @@ instance : RBits Bool := ⟨(· || ·), (· && ·), (· != ·)⟩          -- `|
 @[rs] def bitxor {α : Type} [RBits α] (a b : α) : α := RBits.bxor a b
 @[rs] def shl (a b : Nat) : Nat := a <<< b
 @[rs] def shr (a b : Nat) : Nat := a >>> b
-@[rs] def is_ascii_digit (c : Char) : Bool := isDigit c
+class RAsciiDigit (α : Type) where isAsciiDigit : α → Bool
+instance : RAsciiDigit Char := ⟨isDigit⟩
+instance : RAsciiDigit Nat := ⟨fun b => 48 ≤ b && b ≤ 57⟩                      -- `u8::is_ascii_digit`
+@[rs] def is_ascii_digit {α : Type} [RAsciiDigit α] (c : α) : Bool := RAsciiDigit.isAsciiDigit c
+/-- `str::as_bytes` / `str::bytes`: the UTF-8 encoding (RFC 3629, `JL.Spec.Utf8`) -/
+def as_bytes (s : Str) : List Nat := JL.Spec.Utf8.encode s
+def bytes (s : Str) : List Nat := JL.Spec.Utf8.encode s
 @[rs] def to_digit (c : Char) (radix : Nat) : Option Nat := JsOp.toDigit radix c
 
 @[rs] def new_ {α : Type} (_ : Unit) : List α := []                            -- `Vec::new()`, `String::new()`
@@ -286,6 +323,23 @@ outcome of the steps before it (what a Rust `Result` value is), and the log line
 def foldM {α β : Type} : List α → M β → (M β → α → M β) → M β
   | [], acc, _ => acc
   | x :: xs, acc, f => let r := foldM xs (f (settled acc) x) f; ⟨acc.logs ++ r.logs, r.out⟩
+/-- the same fold when the closure also re-binds variables it captured (`σ`): they are threaded next to the outcome; an error outcome
+does not undo what the closure did to them before it failed -/
+def foldMS {α β σ : Type} : List α → M β → σ → (M β → σ → α → M β × σ) → M β × σ
+  | [], acc, s, _ => (acc, s)
+  | x :: xs, acc, s, f =>
+      let step := f (settled acc) s x
+      let r := foldMS xs step.1 step.2 f
+      (⟨acc.logs ++ r.1.logs, r.1.out⟩, r.2)
+/-- `?` inside such a closure: on failure the closure returns the error together with the variables as they are now -/
+class RTryS (f : Type → Type) where tryS : {α β σ : Type} → f α → σ → (α → M β × σ) → M β × σ
+instance : RTryS M := ⟨fun x s k =>
+  match x.out with
+  | .ok a => let r := k a; (⟨x.logs ++ r.1.logs, r.1.out⟩, r.2)
+  | .err => (⟨x.logs, .err⟩, s)
+  | .panic => (⟨x.logs, .panic⟩, s)⟩
+instance : RTryS Option := ⟨fun x s k => match x with | some a => k a | none => (M.err, s)⟩
+@[rs] def tryS {f : Type → Type} [RTryS f] {α β σ : Type} (x : f α) (s : σ) (k : α → M β × σ) : M β × σ := RTryS.tryS x s k
 /-- `let x = e;` in a function that may log: when `e` is itself a `Result` computed by logging code, its log lines come out here,
 and `x` is the settled outcome; for every other type this is a plain `let` -/
 class RStrict (τ : Type) where strict : {β : Type} → τ → (τ → M β) → M β
@@ -293,9 +347,16 @@ instance (priority := low) {τ : Type} : RStrict τ := ⟨fun e k => k e⟩
 instance {α : Type} : RStrict (M α) := ⟨fun e k => let r := k (settled e); ⟨e.logs ++ r.logs, r.out⟩⟩
 @[rs] def strict {τ : Type} [RStrict τ] {β : Type} (e : τ) (k : τ → M β) : M β := RStrict.strict e k
 /-- collecting an iterator of results into `Result<Vec<_>, _>`: stops at the first error -/
-@[rs] def collect_result {α : Type} : List (M α) → M (List α)
+def collectM {α : Type} : List (M α) → M (List α)
   | [] => pure []
-  | x :: xs => M.bind x (fun a => M.bind (collect_result xs) (fun as => pure (a :: as)))
+  | x :: xs => M.bind x (fun a => M.bind (collectM xs) (fun as => pure (a :: as)))
+def collectO {α : Type} : List (Option α) → Option (List α)
+  | [] => some []
+  | x :: xs => x.bind (fun a => (collectO xs).bind (fun as => some (a :: as)))
+class RCollect (f : Type → Type) where collect : {α : Type} → List (f α) → f (List α)
+instance : RCollect M := ⟨collectM⟩
+instance : RCollect Option := ⟨collectO⟩
+@[rs] def collect_result {f : Type → Type} [RCollect f] {α : Type} (l : List (f α)) : f (List α) := RCollect.collect l
 /-- `Map::insert` (a `BTreeMap`: keys stay sorted; an existing key is replaced) -/
 def insert_ (m : List (Str × Json)) (k : Str) (v : Json) : List (Str × Json) :=
   match m with
@@ -305,6 +366,80 @@ class RTryInto (α : Type) (β : outParam Type) where tryInto : α → Option β
 instance : RTryInto Nat Nat := ⟨fun n => some n⟩             -- `u64 → usize` cannot fail on the 64-bit targets the crate is built for
 instance : RTryInto Json Data.Key := ⟨Data.keyOf⟩           -- `KeyType::try_from(&Value)`
 @[rs] def try_into_i64 (n : Nat) : Option Int := if n < 2 ^ 63 then some (n : Int) else none
+
+/-! ## the parse tree (`Parsed` of src/value.rs, `Operation` / `LazyOperation` / `DataOperation` of src/op/mod.rs)
+An operator reference (`&'static Operator` …) is identified by the key of its table entry; what calling it means is given, per table,
+by the functions `Gen.eager_call` / `Gen.lazy_call` / `Gen.data_call` next to the translated tables. -/
+structure OpRef where
+  key : Str
+  arity : Arity
+  deriving DecidableEq
+inductive PLazy where
+  | mk (operator : OpRef) (arguments : List Json)
+inductive PRaw where
+  | mk (value : Json)
+mutual
+inductive PParsed where
+  | Operation (o : POperation)
+  | LazyOperation (o : PLazy)
+  | DataOperation (o : PData)
+  | Raw (r : PRaw)
+inductive POperation where
+  | mk (operator : OpRef) (arguments : List PParsed)
+inductive PData where
+  | mk (operator : OpRef) (arguments : List PParsed)
+end
+instance : Inhabited PParsed := ⟨.Raw (.mk .null)⟩
+mutual
+def PParsed.depth : PParsed → Nat
+  | .Operation o => o.depth + 1
+  | .LazyOperation _ => 1
+  | .DataOperation o => o.depth + 1
+  | .Raw _ => 1
+def POperation.depth : POperation → Nat
+  | .mk _ args => PParsed.depthList args + 1
+def PData.depth : PData → Nat
+  | .mk _ args => PParsed.depthList args + 1
+def PParsed.depthList : List PParsed → Nat
+  | [] => 0
+  | x :: xs => max x.depth (PParsed.depthList xs)
+end
+/-- how much fuel a mutually recursive group needs for an argument (a bound on how deep the recursion can go into it) -/
+class RFuel (τ : Type) where fuelOf : τ → Nat
+instance : RFuel Json := ⟨Json.depth⟩
+instance : RFuel (List Json) := ⟨Json.depthList⟩
+instance : RFuel PParsed := ⟨PParsed.depth⟩
+instance : RFuel POperation := ⟨POperation.depth⟩
+instance : RFuel PData := ⟨PData.depth⟩
+def fuelOf {τ : Type} [RFuel τ] (x : τ) : Nat := RFuel.fuelOf x
+class RHasOperator (τ : Type) where operator : τ → OpRef
+instance : RHasOperator POperation := ⟨fun | .mk o _ => o⟩
+instance : RHasOperator PData := ⟨fun | .mk o _ => o⟩
+instance : RHasOperator PLazy := ⟨fun | .mk o _ => o⟩
+class RHasArguments (τ : Type) (α : outParam Type) where arguments : τ → List α
+instance : RHasArguments POperation PParsed := ⟨fun | .mk _ a => a⟩
+instance : RHasArguments PData PParsed := ⟨fun | .mk _ a => a⟩
+instance : RHasArguments PLazy Json := ⟨fun | .mk _ a => a⟩
+@[rs] def operator {τ : Type} [RHasOperator τ] (x : τ) : OpRef := RHasOperator.operator x
+@[rs] def arguments {τ α : Type} [RHasArguments τ α] (x : τ) : List α := RHasArguments.arguments x
+@[rs] def value_ (r : PRaw) : Json := match r with | .mk v => v
+/-- the three `phf_map!` tables as lookups from a key to the reference of its entry (keys and arities: `JL/Generated/Tables.lean`) -/
+def opsOf (t : List Entry) (k : Str) : Option OpRef := (findEntry k t).map (fun e => ⟨e.key, e.arity⟩)
+def eagerOps : Str → Option OpRef := opsOf Tables.eager
+def lazyOps : Str → Option OpRef := opsOf Tables.lazy
+def dataOps : Str → Option OpRef := opsOf Tables.data
+/-- association-list lookup (the translated tables are lists of (key, function)) -/
+def assoc {β : Type} (k : Str) : List (Str × β) → Option β
+  | [] => none
+  | (k', v) :: rest => if k' = k then some v else assoc k rest
+
+/-! ## operator descriptors (`NumParams`, seen through `CommonOperator::param_info`) -/
+@[rs] def param_info (o : OpRef) : Arity := o.arity
+@[rs] def is_valid_len (a : Arity) (n : Nat) : Bool := a.isValidLen n            -- tied to the source by `JL.Props.ArityFns`
+@[rs] def can_accept_unary (a : Arity) : Bool := a.canAcceptUnary
+instance {β : Type} : RGet (Str → Option β) Str β := ⟨fun m k => m k⟩            -- `phf::Map::get`
+/-- `Map::keys()` of a serde_json object (a `BTreeMap`): in key order -/
+@[rs] def keys (m : List (Str × Json)) : List Str := m.map Prod.fst
 
 /-! ## integers -/
 @[rs] def unsigned_abs (i : Int) : Nat := i.natAbs
@@ -330,7 +465,7 @@ def strRank : Json → Nat
   | .num _ => 0
   | _ => 1
 
-attribute [rs] REq.eq ROrd.lt ROrd.le RArith.add RArith.sub RArith.mul RArith.div RArith.rem RArith.neg RToF64.toF64 RToInt.toInt RNumberFrom.numberFrom RStrict.strict RZip.zip RBits.bor RBits.band RBits.bxor RTry.try_ RTryInto.tryInto RAndThen.andThen RToNat.toNat RToI64.toI64 RMinMax.min RMinMax.max f64_to_u64 RLen.len RGet.get RPat.stripPrefix RToString.toStr
+attribute [rs] REq.eq ROrd.lt ROrd.le RArith.add RArith.sub RArith.mul RArith.div RArith.rem RArith.neg RToF64.toF64 RToInt.toInt RNumberFrom.numberFrom RAsciiDigit.isAsciiDigit RCmp.partialCmp RTotalCmp.cmp RCollect.collect RHasOperator.operator RHasArguments.arguments RTryS.tryS RContains.contains RStrict.strict RZip.zip RBits.bor RBits.band RBits.bxor RTry.try_ RTryInto.tryInto RAndThen.andThen RToNat.toNat RToI64.toI64 RMinMax.min RMinMax.max f64_to_u64 RLen.len RGet.get RPat.stripPrefix RToString.toStr
 
 end Rs
 end JL
